@@ -547,8 +547,11 @@ func (d Driver) Run(c *core.Ctx) error {
 	if _, err := os.Stat(vracePath()); err != nil {
 		c.Broken("race binary /verif/bin/vrace missing (built by /verif/check)")
 	} else {
-		for _, mode := range []string{"mixed", "geometry", "text", "backends", "nameless"} {
+		for _, mode := range []string{"mixed", "geometry", "text", "backends", "nameless", "sysfont"} {
 			n := c.Pick(150, 1500)
+			if mode == "sysfont" {
+				n = 16 // goroutines making the first use of the system font list at once
+			}
 			ms := raceRun(mode, c.Seed, n)
 			mach := false
 			for _, m := range ms {
